@@ -219,7 +219,15 @@ func enumPathsInline(fn *ssa.Function, limit, maxVisits int, inline func(*ssa.Fu
 }
 
 func enumPathsOpts(fn *ssa.Function, limit, maxVisits int, opts InlineOpts) (paths []Path, complete bool) {
-	inline := opts.Inline
+	userInline := opts.Inline
+	// functions that did not exist in the reference tree (extracted helpers) are always walked in place:
+	// extracting a helper changes no behaviour and must not change what a rule sees
+	inline := func(f *ssa.Function) bool {
+		if isNewHelper(f) {
+			return true
+		}
+		return userInline != nil && userInline(f)
+	}
 	complete = true
 	outcomeKey := func(o outcome, evStart int) string {
 		var b strings.Builder
@@ -298,7 +306,7 @@ func enumPathsOpts(fn *ssa.Function, limit, maxVisits int, opts InlineOpts) (pat
 		return nf
 	}
 	calleeOf := func(s *pstate, c *ssa.CallCommon) (*ssa.Function, []string) {
-		if inline == nil || c.IsInvoke() {
+		if c.IsInvoke() {
 			return nil, nil
 		}
 		switch v := c.Value.(type) {
@@ -531,6 +539,7 @@ func enumPathsOpts(fn *ssa.Function, limit, maxVisits int, opts InlineOpts) (pat
 					for strings.HasPrefix(cc, "!!") {
 						cc = cc[2:]
 					}
+					cc = spellCond(cc)
 					if !literal {
 						ns.path.Conds = append(ns.path.Conds, cc)
 						ns.path.CondIns = append(ns.path.CondIns, x)
@@ -1037,4 +1046,30 @@ func (p *Path) fact(atom string) (val, known bool) {
 		}
 	}
 	return false, false
+}
+
+// spellCond gives a condition its house spelling: a comparison with nil is
+// always written with != ("(x != nil)" / "!(x != nil)"), whichever way round
+// the source tested it - `if err == nil { continue }` and `if err != nil {...}`
+// then read the same to every rule.
+func spellCond(c string) string {
+	pol := true
+	body := c
+	for strings.HasPrefix(body, "!") {
+		body = body[1:]
+		pol = !pol
+	}
+	if l, op, r, ok := splitTop(body); ok && op == "==" && (r == "nil" || l == "nil") {
+		if l == "nil" {
+			l, r = r, l
+		}
+		body = "(" + l + " != nil)"
+		pol = !pol
+	} else if ok && op == "!=" && l == "nil" {
+		body = "(" + r + " != nil)"
+	}
+	if pol {
+		return body
+	}
+	return "!" + body
 }
